@@ -178,10 +178,11 @@ func (c *vpC05Case) recordName(b []byte) {
 		c.hostile = true
 	}
 	lb := bytes.ToLower(b)
-	for _, f := range []string{"content-length", "transfer-encoding"} {
+	for _, f := range []string{"content-length", "transfer-encoding", "trailer"} {
 		if bytes.Contains(lb, []byte(f)) && string(lb) != f {
-			// e.g. "Content-Length\r": a name argument that lenient peers could read as a framing
-			// field; that is a property of the name the caller chose, not of value injection.
+			// e.g. "Content-Length\r" or "Content-Length:" (a peer cuts the name at the first ':'
+			// and sees the framing field itself): that is a property of the name the caller chose,
+			// not of value injection (DESIGN soundness choice) - the body boundary is not compared.
 			c.framingTrick = true
 		}
 	}
@@ -405,8 +406,8 @@ func vpC05Dechunk(b []byte) (data []byte, trailer [][]byte, rest []byte, err str
 // checkBody verifies that the body boundary a peer derives from the head is the body that was set.
 // noBody: the peer knows the message has no body (HEAD response, 1xx/204/304).
 func (c *vpC05Case) checkBody(m *vpC05Wire, isReq, noBody bool) string {
-	if c.explicitCL {
-		return "" // the caller chose the framing himself through a well-formed Content-Length value
+	if c.explicitCL || c.framingTrick {
+		return "" // the caller chose the framing himself (well-formed Content-Length value, or a framing field named through a hostile name argument)
 	}
 	if noBody {
 		if len(m.rest) != 0 {
